@@ -131,6 +131,12 @@ def shapes(tier):
         out.append(["Struct", [["f0", ["Flag"]], ["f1", ["Flag"]], ["f2", ["IfThenElse", ["this", "f0"], ["If", ["this", "f1"], x], G.I(2, False, "b")]], ["f3", BYTE]]])
         out.append(["Struct", [["f0", ["Flag"]], ["f2", ["If", ["this", "f0"], ["Renamed", x, "inner"]]], ["f3", BYTE]]])
         out.append(["Struct", [["f0", BYTE], ["f1", ["Flag"]], ["f2", ["If", ["this", "f1"], ["Array", ["this", "f0"], x]]], ["f3", BYTE]]])
+    # comparisons over float members (a NaN makes every ordered comparison false: the else branch of both spellings)
+    for op in ("<", "<=", ">", ">=", "==", "!="):
+        for fl in (["Float", 4, "b", "name"], ["Float", 8, "l", "name"]):
+            cond = ["bin", op, ["this", "f0"], ["k", 1.0]]
+            out.append(["Struct", [["f0", fl], ["f1", ["IfThenElse", cond, BYTE, G.I(2, False, "b")]], ["f2", BYTE]]])
+            out.append(["Struct", [["f0", fl], ["f1", ["If", cond, G.I(2, False, "b")]], ["f2", BYTE]]])
     out.append(["Struct", [["f0", BYTE], ["f1", ["Bytes", ["this", "f0"]]], ["f2", BYTE]]])
     out.append(["Struct", [["f0", BYTE], ["f1", ["FixedSized", ["this", "f0"], ["GreedyBytes"]]], ["f2", BYTE]]])
     out.append(["Struct", [["f0", BYTE], ["f1", ["PaddedString", ["this", "f0"], "ascii"]], ["f2", BYTE]]])
@@ -183,6 +189,17 @@ def canon_inputs(t, d, limit=4, pool=60):
                     pass
         except Exception:
             pass
+    if t[0] == "Struct" and t[1] and t[1][0][1][0] == "Float":
+        # float members: the special values (NaN, infinities, signed zero, subnormal, values around the constants used in conditions)
+        import struct as _st
+        w, e = t[1][0][1][1], t[1][0][1][2]
+        fmt = (">" if e == "b" else "<") + {2: "e", 4: "f", 8: "d"}[w]
+        specials = [float("nan"), float("inf"), float("-inf"), -0.0, 0.0, 1.0, 0.5, 1.5, -1.0, 5e-324 if w == 8 else 1e-45 if w == 4 else 6e-8]
+        raws = [_st.pack(fmt, x) for x in specials] + [bytes.fromhex("7fc00001" if w == 4 else "7ff8000000000001" if w == 8 else "7e01")[::1 if e == "b" else -1]]
+        for fr in raws:
+            for n in range(0, 4):
+                for tup in itertools.product([0x00, 0x42, 0x99], repeat=n):
+                    cands.append(fr + bytes(tup))
     for n in range(0, 7):
         if len(cands) > 4000:
             break
@@ -211,6 +228,14 @@ def canon_inputs(t, d, limit=4, pool=60):
     # pick a diverse few: longest first, then whatever differs in most byte positions from those already chosen
     out.sort(key=lambda b: -len(b))
     chosen = [out[0]]
+    if t[0] == "Struct" and t[1] and t[1][0][1][0] == "Float":
+        # one encoding per special float value is always kept
+        w = t[1][0][1][1]
+        byhead = {}
+        for b in out:
+            byhead.setdefault(b[:w], b)
+        chosen = list(dict.fromkeys(chosen + list(byhead.values())[:14]))
+        limit = max(limit, len(chosen))
     while len(chosen) < limit and len(chosen) < len(out):
         def dist(b):
             return min(sum(1 for i in range(max(len(b), len(c))) if (b[i:i + 1] != c[i:i + 1])) for c in chosen)
